@@ -23,6 +23,11 @@ def jobs(pid, mode, tier, defines=(), want=('free', 'ws', 'str', 'nest', 'wide')
             for g in range(0, m + 1):
                 add('ws.m%d.k%d.g%d' % (m, k, g), [1, m, k, g], '%d symbolic whitespace bytes inserted at position %d of every %d-byte text' % (k, g, m),
                     nproc=2 if q else 4)
+    if 'ws2' in want:
+        pairs = [(1, 2), (2, 2), (2, 3), (60, 2)]
+        if not q: pairs = [(a, b) for a in (0, 1, 2, 3) for b in (1, 2, 3)] + [(a, b) for a in (2, 5, 30, 58, 59, 60, 61, 62, 63, 64, 65) for b in (2, 3, 4, 5, 31, 62)]
+        for a, b in pairs:
+            add('ws2.a%d.b%d' % (a, b), [5, a, b], "'[' + %d whitespace bytes + 2 symbolic bytes + ',' + %d whitespace bytes + 2 symbolic bytes + ']' (whitespace bytes symbolic)" % (a, b), nproc=2)
     if 'str' in want:
         ks = [0, 13, 14, 15, 16, 29, 30, 31, 32, 33, 61, 62, 63, 64] if q else list(range(0, 68))
         for k in ks:
